@@ -267,6 +267,10 @@ func VH_C05_Thresholds() {
 	vhAssert(realKey >= 1, "map key inline limit admits some key")
 	vhAssert(singleElementPrefixSize+2*realKey <= realMapEl, "a key of the largest inline size leaves room for a value of the same size")
 	vhAssert(2*(realMin-1) <= realMax, "two underflowing slabs merge within the band")
+	// the limits callers see are the limits the library enforces
+	vhAssert(MaxInlineArrayElementSize() == realArr, "exported array element limit is the enforced one")
+	vhAssert(MaxInlineMapElementSize() == realMapEl, "exported map element limit is the enforced one")
+	vhAssert(MaxInlineMapKeySize() == realKey, "exported map key limit is the enforced one")
 	// the summary the engine applies to the float computation elsewhere (lemma L-mul1.5)
 	vhAssert(uint32(float64(T)*1.5) == T+T/2, "uint32(float64(T)*1.5) == T + T/2 for every legal T")
 	vhReach("thresholds-done")
